@@ -135,6 +135,12 @@ class PropScenario(explore.Scenario):
             o = w.objs[name]
             for k in w.keys[name]:
                 v = VALUES[DECL[k][0]][1 if name == 'c' else 0]
+                if name in ('b', 'c') and k == (PA, 'Secret'):
+                    # left unassigned until after the export: its first
+                    # assignment ever is one of the explored events (it is
+                    # write-only, so nothing can read the missing value)
+                    w.store[name][k] = None
+                    continue
                 setattr(o, ATTR[k], to_local(DECL[k][0], v))
                 w.store[name][k] = v
         for name in list(order) + ['c']:
